@@ -217,3 +217,100 @@ def fd_derivative_grid_cases(fd_derivative):
                 bad.append(dict(n=n, m=m, grid=gname, index=k, got=str(du[k] if du.shape == (N,) else du.shape), expected=str(exact[k]), tolerance=float(tol),
                                 result_dtype=str(du.dtype)))
     return cnt, bad
+
+
+# ------------------------------------------------------------------------------------------------------------------
+def honesty_cases(nd):
+    """C02, second sentence, executed on concrete configurations: |result - exact| <= 100 * error_estimate + 1e-5 * scale * 10**n
+    (scale = max(|exact|, |f(x)|, 1)) for exp, sin, 1/x, n = 1..4, the four scalar methods, default steps and user-supplied
+    step options, at three points each.  Returns {case name: (ok, detail)}."""
+    out = {}
+    funs = [('exp', np.exp, lambda x, n: np.exp(x)),
+            ('sin', np.sin, lambda x, n: [np.sin, np.cos, lambda t: -np.sin(t), lambda t: -np.cos(t)][n % 4](x)),
+            ('1/x', lambda x: 1 / x, lambda x, n: (-1) ** n * float(np.prod(np.arange(1, n + 1))) / x ** (n + 1))]
+    optsets = [('default-steps', dict()), ('step=0.01,num_steps=12', dict(step=0.01, num_steps=12)), ('step=1e-4', dict(step=1e-4)),
+               ('step=1e-6,num_steps=10', dict(step=1e-6, num_steps=10)), ('step=1e-9,num_steps=20', dict(step=1e-9, num_steps=20)),
+               ('step=1e-10,num_steps=30', dict(step=1e-10, num_steps=30))]
+    with warnings.catch_warnings():
+        warnings.simplefilter('ignore')
+        for name, f, dn in funs:
+            for n in (1, 2, 3, 4):
+                for oname, opts in optsets:
+                    for method in ('central', 'forward', 'backward', 'complex'):
+                        worst = None
+                        for x in (0.5, 1.0, 2.0):
+                            try:
+                                v, info = nd.Derivative(f, n=n, method=method, full_output=True, **opts)(x)
+                            except Exception as e:
+                                worst = dict(x=x, raised=repr(e)[:80]); break
+                            exact = dn(x, n)
+                            scale = max(abs(exact), abs(f(x)), 1.0)
+                            est = float(np.abs(info.error_estimate))
+                            if not abs(v - exact) <= 100 * est + 1e-5 * scale * 10 ** n:
+                                worst = dict(x=x, value=float(v), exact=float(exact), error_estimate=est); break
+                        out['%s,n=%d,%s,%s' % (name, n, method, oname)] = (worst is None, worst)
+    return out
+
+
+def multicomplex_default_step_cases(nd):
+    """C12, last sentence, at the step size the library actually uses: Derivative(f, method='multicomplex', n=1|2) with the
+    default step generator (h about 8 eps) against the analytic derivative, for expressions built from the Bicomplex
+    operators and functions, at positive AND negative base points.  rtol 1e-8.  Returns {case: (ok, detail)}."""
+    X = np
+    exprs = [
+        ('x**3', lambda x: x ** 3, lambda x: 3 * x ** 2, lambda x: 6 * x, 'all'),
+        ('x**2', lambda x: x ** 2, lambda x: 2 * x, lambda x: 2 + 0 * x, 'all'),
+        ('x**-1', lambda x: x ** -1, lambda x: -1 / x ** 2, lambda x: 2 / x ** 3, 'all'),
+        ('x**-2', lambda x: x ** -2, lambda x: -2 / x ** 3, lambda x: 6 / x ** 4, 'all'),
+        ('x**2.0', lambda x: x ** 2.0, lambda x: 2 * x, lambda x: 2 + 0 * x, 'all'),
+        ('1/x', lambda x: 1 / x, lambda x: -1 / x ** 2, lambda x: 2 / x ** 3, 'all'),
+        ('x/(1+x*x)', lambda x: x / (1 + x * x), lambda x: (1 - x * x) / (1 + x * x) ** 2, lambda x: 2 * x * (x * x - 3) / (1 + x * x) ** 3, 'all'),
+        ('exp(x)/x', lambda x: X.exp(x) / x, lambda x: X.exp(x) * (x - 1) / x ** 2, lambda x: X.exp(x) * (x * x - 2 * x + 2) / x ** 3, 'all'),
+        ('sin(x)*x**3', lambda x: X.sin(x) * x ** 3, lambda x: X.cos(x) * x ** 3 + 3 * x ** 2 * X.sin(x),
+         lambda x: -X.sin(x) * x ** 3 + 6 * x ** 2 * X.cos(x) + 6 * x * X.sin(x), 'all'),
+        ('x*x*x', lambda x: x * x * x, lambda x: 3 * x ** 2, lambda x: 6 * x, 'all'),
+        ('exp(2x)', lambda x: X.exp(2 * x), lambda x: 2 * X.exp(2 * x), lambda x: 4 * X.exp(2 * x), 'all'),
+        ('sin', X.sin, X.cos, lambda x: -X.sin(x), 'all'), ('cos', X.cos, lambda x: -X.sin(x), lambda x: -X.cos(x), 'all'),
+        ('tanh', X.tanh, lambda x: 1 / X.cosh(x) ** 2, lambda x: -2 * X.tanh(x) / X.cosh(x) ** 2, 'all'),
+        ('arctan', X.arctan, lambda x: 1 / (1 + x * x), lambda x: -2 * x / (1 + x * x) ** 2, 'all'),
+        ('expm1', X.expm1, X.exp, X.exp, 'all'),
+        ('log', X.log, lambda x: 1 / x, lambda x: -1 / x ** 2, 'pos'), ('sqrt', X.sqrt, lambda x: 0.5 / X.sqrt(x), lambda x: -0.25 / x ** 1.5, 'pos'),
+        ('x**1.5', lambda x: x ** 1.5, lambda x: 1.5 * x ** 0.5, lambda x: 0.75 * x ** -0.5, 'pos'),
+        ('log1p', X.log1p, lambda x: 1 / (1 + x), lambda x: -1 / (1 + x) ** 2, 'gt-1'),
+        ('tan', X.tan, lambda x: 1 / X.cos(x) ** 2, lambda x: 2 * X.tan(x) / X.cos(x) ** 2, 'all'),
+        ('sinh', X.sinh, X.cosh, X.sinh, 'all'), ('cosh', X.cosh, X.sinh, X.cosh, 'all'),
+        ('exp', X.exp, X.exp, X.exp, 'all'), ('exp2', X.exp2, lambda x: X.log(2) * 2 ** x, lambda x: X.log(2) ** 2 * 2 ** x, 'all'),
+        ('log2', X.log2, lambda x: 1 / x / X.log(2), lambda x: -1 / x ** 2 / X.log(2), 'pos'),
+        ('log10', X.log10, lambda x: 1 / x / X.log(10), lambda x: -1 / x ** 2 / X.log(10), 'pos'),
+        ('arcsinh', X.arcsinh, lambda x: 1 / X.sqrt(1 + x * x), lambda x: -x / (1 + x * x) ** 1.5, 'all'),
+        ('arctanh', X.arctanh, lambda x: 1 / (1 - x * x), lambda x: 2 * x / (1 - x * x) ** 2, 'unit'),
+        ('arcsin', X.arcsin, lambda x: 1 / X.sqrt(1 - x * x), lambda x: x / (1 - x * x) ** 1.5, 'unit'),
+        ('arccos', X.arccos, lambda x: -1 / X.sqrt(1 - x * x), lambda x: -x / (1 - x * x) ** 1.5, 'unit'),
+        ('arccosh', X.arccosh, lambda x: 1 / X.sqrt(x * x - 1), lambda x: -x / (x * x - 1) ** 1.5, 'gt1'),
+    ]
+    pts = {'all': [-7.3, -2.0, -0.5, 0.5, 2.0, 3.7], 'pos': [0.3, 0.5, 2.0, 3.7], 'gt-1': [-0.6, -0.25, 0.5, 2.0], 'unit': [-0.6, -0.25, 0.5, 0.8],
+           'gt1': [1.3, 2.0, 3.7]}
+    out = {}
+    with warnings.catch_warnings():
+        warnings.simplefilter('ignore')
+        for name, f, d1, d2, dom in exprs:
+            for n, d in ((1, d1), (2, d2)):
+                worst = None
+                for x in pts[dom]:
+                    try:
+                        v = float(nd.Derivative(f, method='multicomplex', n=n)(x))
+                    except Exception as e:
+                        worst = dict(x=x, raised=repr(e)[:80]); break
+                    ex = float(d(x))
+                    if not abs(v - ex) <= 1e-8 * max(1.0, abs(ex)):
+                        worst = dict(x=x, got=v, exact=ex); break
+                out['%s,n=%d' % (name, n)] = (worst is None, worst)
+        # array argument mixing signs: every element as the scalar evaluation
+        xa = np.array([-1.5, 2.0, -0.25, 0.75])
+        for name, f, d1, d2, dom in exprs[:9]:
+            for n, d in ((1, d1), (2, d2)):
+                v = np.asarray(nd.Derivative(f, method='multicomplex', n=n)(xa), dtype=float)
+                ex = np.asarray(d(xa), dtype=float)
+                ok = bool(np.all(np.abs(v - ex) <= 1e-8 * np.maximum(1.0, np.abs(ex))))
+                out['%s,n=%d,array' % (name, n)] = (ok, None if ok else dict(x=xa.tolist(), got=v.tolist(), exact=ex.tolist()))
+    return out
